@@ -508,7 +508,7 @@ def run_enumeration(ctx, prop, full_len, sample_len, n_samples):
         b = drive.run_model(clean)
         for (start, ln) in bounds:
             for i in range(start, start + ln):
-                x, y = project(prop, drive.norm(replies[i])), project(prop, drive.norm(b[i]))
+                x, y = drive.strip_unobservable(project(prop, drive.norm(replies[i])), project(prop, drive.norm(b[i])))
                 if x != y:
                     disagreements.append({"history": clean[start: i + 1], "impl": x, "model": y})
                     break
